@@ -69,3 +69,20 @@ package olric
 //@   requires #wired: dp != nil && dp.commands != nil && dp.dm != nil && dp.dm.clusterClient != nil && dp.dm.clusterClient.partitionCount > 0
 //@   ensures #slot [C15]: (result.0 in dp.commands) && 0 <= result.1 && result.1 == len(dp.commands[result.0]) - 1 && dp.commands[result.0][result.1] == cmd
 //@   ensures #placement [C15]: result.0 < dp.dm.clusterClient.partitionCount
+
+// ---------------------------------------------------------------------------------------------------
+// C13 (client side of "every key maps to the same partition and owner from any member or client"): the cluster
+// client computes the partition of a key exactly like a member (hkey mod partition count, cf. partitions.
+// PartitionIDByHKey) and talks to the LAST listed primary owner, which is what Partition.Owner() is on a member.
+//@ func (cl *ClusterClient) smartPick(dmap string, key string) (*redis.Client, error)
+//@   props C13
+//@   flag termination
+//@   flag wired 2
+//@   requires #partitions: cl.partitionCount > 0
+//@   atcall ClusterClient\)\.clientByPartID$ requires #same_partition_function [C13]: partID == hkey % cl.partitionCount && partID < cl.partitionCount
+
+//@ func (cl *ClusterClient) clientByPartID(partID uint64) (*redis.Client, error)
+//@   props C13 C16
+//@   flag termination
+//@   flag wired 2
+//@   ensures #current_owner_is_the_last_listed [C13] internal: result.1 == nil ==> len(route.PrimaryOwners) >= 1 && primaryOwner == route.PrimaryOwners[len(route.PrimaryOwners) - 1]
